@@ -221,9 +221,13 @@ func (c *C10Child) Kill() {
 
 // c10StartChild starts one server process and waits until it accepts connections.
 func c10StartChild(kind, param string) (*C10Child, error) {
-	exe, err := os.Executable()
-	if err != nil {
-		return nil, err
+	// the binary lives in a cache directory that a concurrent bin/check may prune: re-execute the running image
+	exe := "/proc/self/exe"
+	if _, err := os.Stat(exe); err != nil {
+		var err2 error
+		if exe, err2 = os.Executable(); err2 != nil {
+			return nil, err2
+		}
 	}
 	for attempt := 0; attempt < 5; attempt++ {
 		addr := c10FreeAddr()
